@@ -20,6 +20,9 @@ RULE = ("cases = (api, mode, size, L, J, subset R) enumerated by TLC; non-trivia
 
 
 def run(rep):
+    if rep.tier == "thorough":
+        from .. import proofs
+        proofs.attach(rep, "TapeProofs")      # TLAPS: the state machine's invariants for ANY number of calls / threads / modules / history length
     fnd = Findings()
     res, table = dwtmodel.run_ops(rep, rep.tier, ["ABackwardOK", "SBackwardOK"], EmitGrad=True,
                                   **dwtmodel.grad_bounds(rep.tier))
